@@ -4,6 +4,7 @@ use std::io::{self, BufRead, Write};
 use std::panic;
 
 mod alloc;
+mod ops_address;
 mod ops_amount;
 mod ops_basic;
 mod ops_codec;
@@ -27,6 +28,9 @@ fn run_line(line: &str) -> String {
     let mut it = line.split(' ');
     let op = it.next().unwrap_or("");
     let args: Vec<&str> = it.collect();
+    if let Some(r) = ops_address::run(op, &args) {
+        return r;
+    }
     if let Some(r) = ops_amount::run(op, &args) {
         return r;
     }
